@@ -18,9 +18,9 @@ LEVEL = "proof"
 def flow(ctx, variant, count, seed):
     h = common.build_harness("flow", variant)
     out = {"cases": 0, "bad": [], "outcomes": {}, "lines": []}
-    for stream in (0, 1, 2):
+    for stream in (0, 1, 2, 3):
         lines = common.corpus("C07", ("FL ",)) if stream == 0 else []
-        lines += common.harness_gen(h, [seed + stream, count // 3, stream])
+        lines += common.harness_gen(h, [seed + stream, count // 4 if stream < 3 else count // 3, stream])
         impl, _, _ = common.run_both([h, "run"], None, lines, chunk=25, timeout=240)
         out["cases"] += len(lines)
         out["lines"] += lines[:2]
